@@ -11,6 +11,7 @@ package certmagic
 import (
 	"context"
 	"fmt"
+	"sync"
 	"testing"
 	"testing/synctest"
 	"time"
@@ -18,10 +19,65 @@ import (
 	"github.com/mholt/acmez/v3/acme"
 )
 
+// several handshakes at once for a name that has to be loaded or obtained — and cannot be: every
+// one of them, the one that does the work and those that waited for it, is answered with an error
+func c03Concurrent(t *testing.T, o *vOut, ca *vCA) {
+	const name = "absent.c03.example"
+	for _, stored := range []string{"absent", "corrupt"} {
+		synctest.Test(t, func(t *testing.T) {
+			st := vNewMem()
+			iss := vNewIssuer("vi", ca)
+			iss.Behave = func(int, []string) error {
+				time.Sleep(3 * time.Second)
+				return ErrNoRetry{Err: fmt.Errorf("verif: issuer down")}
+			}
+			od := &OnDemandConfig{DecisionFunc: func(context.Context, string) error { return nil }}
+			cache, cfg := vNewCfg(st, []Issuer{iss}, func(cf *Config, co *CacheOptions) {
+				cf.OnDemand = od
+				co.RenewCheckInterval = 100000 * time.Hour
+				co.OCSPCheckInterval = 100000 * time.Hour
+			})
+			defer cache.Stop()
+			hsQuietMaintenance(cache)
+			if stored == "corrupt" {
+				b := hsMakeBundle(ca, name, "valid", false)
+				hsStoreBundle(st, iss.IssuerKey(), name, b)
+				st.Store(context.Background(), StorageKeys.SiteCert(iss.IssuerKey(), name), []byte("-----BEGIN GARBAGE-----\n"))
+			}
+			var wg sync.WaitGroup
+			res := make([]string, 5)
+			for i := range res {
+				wg.Add(1)
+				go func() {
+					defer wg.Done()
+					time.Sleep(time.Duration(i) * 100 * time.Millisecond)
+					cert, err := cfg.GetCertificateWithContext(context.Background(), hsHello(name))
+					res[i] = hsResult(cert, err, nil, nil, nil)
+				}()
+			}
+			wg.Wait()
+			for i, r := range res {
+				if r == "empty" {
+					o.Mon("C03 maint empty-certificate-nil-error", map[string]any{"state": stored, "concurrent_handshake": i, "results": res})
+					break
+				}
+			}
+			synctest.Wait()
+			time.Sleep(10 * time.Minute)
+			synctest.Wait()
+			if left := hsMapsLeft(); len(left) > 0 {
+				hsClearMaps()
+			}
+			o.Stat("concurrent_failing_loads_checked", 1)
+		})
+	}
+}
+
 func TestVerifC03Maint(t *testing.T) {
 	o := vOpen(t, "C03maint")
 	defer o.Close()
 	ca := vNewCA("c03m")
+	c03Concurrent(t, o, ca)
 	const name = "maint.c03.example"
 	for _, state := range []string{"window", "expired", "valid"} {
 		for _, revoked := range []bool{false, true} {
